@@ -597,6 +597,7 @@ func init() {
 			"a selector from 29 curated selectors of known specificity (23 matching incl. :is/:not/lists/upper-case type, 6 decoys) and a source position; half of the cases force ties on origin+importance, a quarter also on specificity. " +
 			"Oracle: reference comparator from CSS Cascade 4 section 6: (origin-importance rank UA < user < author < author! < user!, style attribute above every selector, specificity triple, order of appearance with @import at the import point, nested rules after their parent's declarations, hints as author specificity-0 rules placed before all author sheets); the computed value (via GetAllComputedStyles, 10% via the Style of the laid-out box) must be the value of the maximum, and with no applicable declaration none of the listed values may appear. " +
 			"One case in three is rendered for the screen media type, with @media blocks inside imported sheets and @import ... screen among the author carriers. " +
+			"A sheet may be linked twice (again after every other author sheet). " +
 			"Non-trivial: at least two applicable declarations.",
 		ImportantLabels: []string{"media:screen", "decided-by:origin-importance", "decided-by:specificity", "decided-by:order", "decided-by:style-attribute", "carrier:import", "carrier:link", "carrier:media", "carrier:nested-amp", "carrier:nested-desc", "carrier:attr", "carrier:hint", "origin:ua", "origin:user", "important", "via-layout"},
 		Assumptions:     []string{"UA !important is not generated (the property lists five origin/importance levels)", "declarations placed after a nested rule in the same parent are not generated (the drafts changed their order of appearance)"},
